@@ -23,7 +23,7 @@ func init() {
 		Title: "Registering a name charges the listed price and yields a live name for the term",
 		Cases: func(t string) int { return tierN(t, 300, 5000) },
 		Run:   runC16,
-		Rule: "case = one chain with 3 names seeded in genesis (label lengths 1..8, both TLDs, owners a0..a3, expiry heights 3..11, optionally one long-lived) run for ~14-20 blocks; 14..24 registrations (MsgRegisterName and the deprecated MsgRegister, labels mixed-case, occasionally with a space) of seeded / fresh / previously registered names by owner / previous owner (made by a transfer) / stranger, at heights before, exactly at, one after and long after the seeded expiry, with year counts from {1, 2..20, 0, -1, 1e12, 2^31, 2^62, MaxInt64, MinInt64} and, per price tier, ceil(k*2^64/price) (int64 product with the price wraps to a small positive amount); " +
+		Rule: "case = one chain with 3 names seeded in genesis (label lengths 1..8, both TLDs, owners a0..a3, expiry heights 3..11, optionally one long-lived) run for ~14-20 blocks; 14..24 registrations (MsgRegisterName and the deprecated MsgRegister, labels mixed-case, occasionally with a space) of seeded / fresh / previously registered names by owner / previous owner (made by a transfer) / stranger, at heights before, exactly at, one after and long after the seeded expiry, with year counts from {1, 2..20, 0, -1, 1e12, 2^31, 2^62, MaxInt64, MinInt64} and, per price tier, ceil(k*2^64/price) (int64 product with the price wraps to a small positive amount) and ceil(k*2^64/5484530)+-1 (term in blocks wraps); accounts hold 1e24 ujkl so that even wrapped prices are affordable; " +
 			"every registration is one oracle evaluation: on success registrant debited exactly years*GetCostOfName (big integers), protocol-liquidity account credited exactly that, nobody else (rns module included) moves, Name resolves to the registrant, fresh/expired name: Expires >= h + years*5484530, live name renewed by its owner: Expires grows by exactly years*5484530, live name (h <= Expires) never registered by a non-owner; on rejection nothing moves; " +
 			"non-trivial signature = (label-length tier x TLD, year class, registrant role in {fresh, owner, prev-owner, stranger}, height relative to the previous expiry in {never-registered, long-before, one-before, at, one-after, long-after}, accepted/rejected)",
 		Assumptions: []string{
@@ -91,7 +91,7 @@ func runC16(rc *RunCtx) {
 		label, tld := rnsSplit(s.full)
 		genesis = append(genesis, rnstypes.Names{Name: label, Tld: tld, Expires: s.exp, Value: keys[s.owner], Data: "{}", Subdomains: []*rnstypes.Names{}})
 	}
-	c, err := chain.New(chain.Config{Seed: rc.Seed, NAcc: nacc, Fund: rnsFund(), RnsNames: genesis})
+	c, err := chain.New(chain.Config{Seed: rc.Seed, NAcc: nacc, Fund: c16Fund(), RnsNames: genesis})
 	if err != nil {
 		rc.Abort("init: " + err.Error())
 		return
@@ -153,8 +153,13 @@ func runC16(rc *RunCtx) {
 			return 0
 		case r < 62:
 			return -1
-		case r < 67:
+		case r < 65:
 			return 1_000_000_000_000
+		case r < 69:
+			// year counts whose length in blocks (years * 5484530) wraps past 2^64 onto a small positive number
+			ys := rnsCraftedYears(5484530)
+			y := ys[rc.Intn(2)]
+			return y + int64(rc.Intn(3)) - 1
 		case r < 75:
 			return rc.Pick([]int64{1 << 31, 1 << 62, math.MaxInt64, math.MinInt64, -(1 << 40), 3_000_000})
 		default:
@@ -286,4 +291,11 @@ func runC16(rc *RunCtx) {
 		return
 	}
 	rc.Sample(map[string]interface{}{"seeded": fmt.Sprintf("%+v", seeds), "final_height": c.Height, "first_steps": w.line})
+}
+
+// c16Fund makes every account rich enough (1e24 ujkl) to pay even the astronomically large exact prices of
+// overflow-crafted year counts, so that the arithmetic paths behind them are exercised through the real bank keeper.
+func c16Fund() sdk.Coins {
+	whale, _ := sdk.NewIntFromString("1000000000000000000000000")
+	return sdk.NewCoins(sdk.NewCoin(rnsDenomA, whale), sdk.NewInt64Coin(rnsDenomB, 1_000_000_000_000))
 }
